@@ -72,7 +72,7 @@ Proof.
   - destruct (is_node cfg); cbn [negb]; [|reflexivity].
     destruct (filter (fun k => str_eqb (name s k) nm) (kids s p)) as [|c [|c' l]]; try reflexivity.
     apply set_parent_names.
-  - reflexivity.
+  - destruct (sort_raises keys (kids s p)); reflexivity.
   - destruct (is_node cfg); reflexivity.
 Qed.
 
@@ -199,7 +199,8 @@ Proof.
   - rewrite Hn. cbn [negb].
     destruct (filter (fun k => str_eqb (name s k) nm) (kids s p)) as [|c [|c' l]]; try exact H.
     apply set_parent_SU; assumption.
-  - cbn [fst]. intros q. cbn [kids name set_kids]. destruct (Nat.eq_dec q p) as [->|Hq].
+  - destruct (sort_raises keys (kids s p)); cbn [fst]; [exact H|].
+    intros q. cbn [kids name set_kids]. destruct (Nat.eq_dec q p) as [->|Hq].
     + rewrite upd_same. apply (Permutation_NoDup (l := map (name s) (kids s p))); [|apply H].
       apply Permutation_map, Permutation_sym, py_sort_perm.
     + rewrite upd_other by exact Hq. apply H.
